@@ -166,6 +166,13 @@ def cases(tier, rng):
         for op in ops:
             add(k, case2(op, n, limbs_of(va, n), limbs_of(vb, n)))
 
+    # -- the very same object on both sides of rem_div / the comparisons (zero included: division by zero must panic)
+    for n in (1, 2, 3, 4):
+        top = 2 ** (32 * n)
+        for v in sorted({0, 1, 2, M32, M32 + 1, top - 1, top // 2, rng.randrange(top), rng.randrange(top)}):
+            if 0 <= v < top:
+                add("same-object", "remdiv_same %d %s" % (n, " ".join(map(str, limbs_of(v, n)))))
+                add("same-object", "cmp_same %d %s" % (n, " ".join(map(str, limbs_of(v, n)))))
     # -- width 0: every operation
     for op in BINOPS + UNOPS + ("zero", "one", "static_length", "decode"):
         add("width0", "%s 0" % op)
